@@ -35,6 +35,10 @@ def build(sc, seed):
     rng = gen.rng_for(seed, json.dumps(sc, sort_keys=True, default=str))
     n, p, rho = SIZES[sc["data"]]
     s, d, pk = sc["solver"], sc["datafit"], sc["penalty"]
+    if pk == "PositiveConstraint" and d in ("Logistic", "LogisticGroup") and p >= n:
+        # unregularised logistic regression with more features than samples has no minimiser (some direction of the
+        # feasible cone separates the data): not a legitimate problem for any solver -- use the tall shape
+        n, p, rho = SIZES["tall"]
     fi = bool(sc["fit_intercept"])
     X = gen.design(rng, n, p, rho=rho, density=0.5 if sc["storage"] == "csc" else 1.0)
     if sc["data"] == "contrast":
@@ -67,6 +71,13 @@ def build(sc, seed):
         y = gen.target(rng, X, "reg", offset=1.5 if fi else 0.0)
     elif d in ("Logistic", "LogisticGroup", "QuadraticSVC"):
         y = gen.target(rng, X, "clf", offset=0.5 if fi else 0.0)
+        if pk == "PositiveConstraint" and d != "QuadraticSVC" and not sc.get("degen"):
+            # an unregularised logistic problem on separable data has no minimiser (the iterates leave every bounded
+            # set, whatever the solver): the last two samples repeat the first two with the opposite label
+            X = X.copy()
+            X[-2:] = X[:2]
+            y[-2:] = -y[:2]
+            X = np.asfortranarray(X)
     elif d == "Poisson":
         y = gen.target(rng, X, "count")
     elif d == "Gamma":
@@ -248,11 +259,15 @@ def build(sc, seed):
         Xw_init = PB.predictor(prob, w)
         if s == "GramCD":
             Xw_init = None
+    pn_illposed = s in ("ProxNewton", "GroupProxNewton") and not OP.is_convex(pen) and sc["strategy"] == "fixpoint"
     flags = dict(
         descent=int(s in DESCENT_SOLVERS and (OP.is_convex(pen) or (wellposed and s != "ProxNewton"
                                                                    and s != "GroupProxNewton"))),
-        cert=int(s in CERT_SOLVERS),
-        critval=int(s in CERT_SOLVERS or s == "FISTA"),
+        # (prox-Newton steps 1 / (sum_i hess_i X_ij^2) are unbounded as the curvature vanishes: with a non-convex
+        #  penalty the fixed-point residual then leaves the well-posed step range of its prox, so only the
+        #  subdifferential strategy defines a certificate there)
+        cert=int(s in CERT_SOLVERS and not pn_illposed),
+        critval=int((s in CERT_SOLVERS or s == "FISTA") and not pn_illposed),
         haswouter=int(s not in ("LBFGS",)),
     )
     return dict(prob=prob, X=Xo, y=y, dfd=dfd, pen=pen, solver=s, kw=kw, w_init=w_init,
